@@ -22,7 +22,7 @@ func TestC15(t *testing.T) {
 	mon.Main(t, mon.Check{
 		ID:    "C15",
 		Level: "exploration",
-		Rule: "three real connection types driven as net.Conn: (G) NoiseGrpcConn after real Client/ServerHandshake over an in-memory ProxyConn; (T) NoiseConn: client through mailbox.Dial with an in-memory dialer, server side wrapped as Listener.doHandshake does (hook); (K) the plain mailbox connKit: real ClientConn and ServerConn (GBN inside) over the in-memory relay, no noise. For each, PRNG sequences of writes (sizes from {0,1,2,32767,32768,32769,65534,65535} and random, beyond 65535 up to 300000 on the TCP variant) and PRNG sequences of read-buffer sizes from {1,2,3,17,4096,32767,32768,32769,65535,100000} (+0..2). Oracles per Read: 0 <= n <= len(buf), bytes beyond n untouched, the bytes returned are the next bytes of the written stream; at the end the concatenation of reads equals the concatenation of writes; per Write: n == len(b) with a nil error, or an error; a write larger than one record on the gRPC variant returns ErrMaxMessageLengthExceeded and nothing of it reaches the reader, on the TCP variant it is chunked transparently. Non-trivial = a transfer that used at least one read buffer smaller than a record and one larger; distinct = (variant, sizes hash).",
+		Rule: "three real connection types driven as net.Conn: (G) NoiseGrpcConn after real Client/ServerHandshake over an in-memory ProxyConn; (T) NoiseConn: client through mailbox.Dial with an in-memory dialer, server side wrapped as Listener.doHandshake does (hook); (K) the plain mailbox connKit: real ClientConn and ServerConn (GBN inside) over the in-memory relay, no noise. For each, PRNG sequences of writes (sizes from {0,1,2,32767,32768,32769,65534,65535} and random, beyond 65535 up to 300000 on the TCP variant) and PRNG sequences of read-buffer sizes from {1,2,3,17,4096,32767,32768,32769,65535,100000} (+0..2). Oracles per Read: 0 <= n <= len(buf), bytes beyond n untouched, the bytes returned are the next bytes of the written stream; at the end the concatenation of reads equals the concatenation of writes; per Write: n == len(b) with a nil error, or an error; a write larger than one record on the gRPC variant returns ErrMaxMessageLengthExceeded and nothing of it reaches the reader, on the TCP variant it is chunked transparently. A twelfth of the cases inject a transport write timeout into one record of the gRPC variant (header or body, nothing or half of it accepted), the caller retries once, and the reader must see exactly the bytes the Write calls reported as written. Non-trivial = a transfer that used at least one read buffer smaller than a record and one larger; distinct = (variant, sizes hash).",
 		Assumptions: []string{"a zero-length write produces an empty record; what Read returns for it (0 bytes) is not judged beyond the three clauses of the statement"},
 		NCases: func(tier string) int {
 			if tier == "thorough" {
@@ -66,7 +66,114 @@ func (p *pipeConn) SetDeadline(time.Time) error      { return nil }
 func (p *pipeConn) SetReadDeadline(time.Time) error  { return nil }
 func (p *pipeConn) SetWriteDeadline(time.Time) error { return nil }
 
+// runC15WriteFault: on the gRPC variant the transport accepts a record's header
+// and then fails the body write with a timeout. Whatever the caller does next
+// (it retries once, as a caller that was told "0 bytes written" may), the
+// reader must see exactly the bytes that the Write calls reported as written.
+func runC15WriteFault(c *mon.Case) {
+	rng := c.Rng
+	pass := eng.Entropy(rng)
+	da, db, a2b, _ := sim.NewDuplexPair()
+	cp := eng.NewMboxParty(eng.NewKey(rng), nil, pass, nil, 0, 2)
+	sp := eng.NewMboxParty(eng.NewKey(rng), nil, pass, []byte("auth"), 0, 2)
+	var wg sync.WaitGroup
+	var ce, se error
+	var cc, sc net.Conn
+	wg.Add(2)
+	go func() { defer wg.Done(); cc, _, ce = cp.Noise.ClientHandshake(context.Background(), "", &fakeProxy{da}) }()
+	go func() { defer wg.Done(); sc, _, se = sp.Noise.ServerHandshake(&fakeProxy{db}) }()
+	wg.Wait()
+	if ce != nil || se != nil {
+		c.Shard.Inconc(fmt.Sprintf("handshake: %v / %v", ce, se))
+		return
+	}
+	nw := 3 + rng.Intn(5)
+	sizes := make([]int, nw)
+	for i := range sizes {
+		sizes[i] = 1 + rng.Intn(3000)
+	}
+	failAt := 1 + rng.Intn(nw-1)
+	failBody := rng.Intn(2) == 0 // fail the body write, or the header write
+	acceptPart := rng.Intn(3) == 0
+	base := len(a2b.Written) // handshake writes so far
+	a2b.WriteErr = func(idx int, p []byte) (int, error) {
+		rel := idx - base
+		target := 2 * failAt
+		if failBody {
+			target++
+		}
+		if rel == target {
+			if acceptPart && len(p) > 1 {
+				return len(p) / 2, timeoutErr{}
+			}
+			return 0, timeoutErr{}
+		}
+		return len(p), nil
+	}
+	// must: bytes of the writes that succeeded before the fault - the reader
+	// has to get them. expect: everything any Write call reported as written
+	// (a partially flushed record cannot be decrypted by the peer until it
+	// is complete, so the reader may legitimately stop before those bytes).
+	var expect, must []byte
+	failed := false
+	off := 0
+	var log []string
+	for i, sz := range sizes {
+		data := eng.StreamBytes('f', off, sz)
+		n, err := cc.Write(data)
+		log = append(log, fmt.Sprintf("Write#%d(%d)=(%d,%v)", i, sz, n, err))
+		if n < 0 || n > sz {
+			c.Shard.Violate("contract|G|write-count", fmt.Sprintf("Write of %d bytes returned n=%d", sz, n), nil)
+			return
+		}
+		expect = append(expect, data[:n]...)
+		if err == nil && !failed {
+			must = append(must, data...)
+		}
+		if err != nil {
+			failed = true
+			// the caller was told that only n bytes went out: it offers
+			// the rest again, once
+			n2, err2 := cc.Write(data[n:])
+			log = append(log, fmt.Sprintf("retry(%d)=(%d,%v)", sz-n, n2, err2))
+			if n2 >= 0 && n2 <= sz-n {
+				expect = append(expect, data[n:n+n2]...)
+			}
+			if err2 != nil {
+				break
+			}
+		}
+		off += sz
+	}
+	a2b.Close() // end of stream for the reader
+	var got []byte
+	buf := make([]byte, 4096)
+	for {
+		n, err := sc.Read(buf)
+		got = append(got, buf[:n]...)
+		if err != nil {
+			break
+		}
+	}
+	rep := map[string]any{"variant": "G-write-fault", "writes": log, "fail_at_write": failAt, "fail_body": failBody, "partial": acceptPart}
+	switch {
+	case len(got) < len(must) || string(got[:len(must)]) != string(must):
+		c.Shard.Violate("contract|G|write-fault-lost", fmt.Sprintf("after a transport write timeout in record #%d the reader received %d bytes, fewer than / different from the %d bytes of the writes that had succeeded before: %v", failAt, len(got), len(must), log), rep)
+	case len(got) > len(expect) || string(got) != string(expect[:len(got)]):
+		c.Shard.Violate("contract|G|write-fault", fmt.Sprintf("after a transport write timeout in record #%d the reader received %d bytes that are not a prefix of the %d bytes the Write calls reported as written (first difference at offset %d): %v", failAt, len(got), len(expect), firstDiff(got, expect), log), rep)
+	}
+	c.Shard.Count("write_fault_transfers", 1)
+	c.Shard.Eval(fmt.Sprintf("GF|%d|%v|%v|%v", failAt, failBody, acceptPart, sizes))
+	if c.Idx%60 == 0 {
+		c.Shard.Sample(rep)
+	}
+}
+
 func runC15(c *mon.Case) {
+	if c.Idx%12 == 11 {
+		runC15WriteFault(c)
+		return
+	}
 	switch c.Idx % 6 {
 	case 0, 1, 2:
 		runC15Conn(c, "G")
